@@ -14,6 +14,7 @@ hypotheses of `compose_levels` / `compose_levels_all_atom` hold of the implement
 end-to-end step over those dictionaries returns exactly those graphs at every coarse level (correspondence).
 Compose/LevelsRunSound.v proves what verdict 0 means."""
 import copy
+import re
 import json
 
 import networkx as nx
@@ -113,7 +114,9 @@ class C06(common.Prop):
                  134: 'graph level: the all-atom fine graph right after the bonding step is not the skeleton of the bottom cut '
                       'in the numbering the levels above induce',
                  106: 'the mapping or bonding guarantee fails at a step (fragment graph of a coarse node vs the fine nodes '
-                      'recording it, fragment name, bonds only across base edges)'}
+                      'recording it, fragment name, bonds only across base edges)',
+                 107: 'stepping manually across resolver objects (the fine graph returned after k levels handed to from_graph '
+                      'with the remaining fragment blocks) does not end in the molecule resolve_all() gives'}
 
     def corpus(self, ctx):
         return [
@@ -237,6 +240,19 @@ class C06(common.Prop):
                 else:
                     res['layered_ok'] = bool(molgen.same_molecule(hl, hf))
                     res['flat_ok'] = True
+            # (5) manual stepping ACROSS resolver objects: the fine graph returned after k levels is handed, as the
+            # coarse graph, to from_graph together with the remaining fragment blocks ("each step's coarse graph is
+            # the previous step's fine graph"); the end result must be the one resolve_all gives
+            if n >= 2:
+                blocks = re.findall(r"\{[^\}]+\}", case['layered'])
+                k = 1 + (len(case['layered']) % (n - 1))
+                r, _ = fresh()
+                for _ in range(k):
+                    _, part = r.resolve()
+                r2 = MoleculeResolver.from_graph('.'.join(blocks[1 + k:]), copy.deepcopy(part), last_all_atom=laa)
+                _, mol2 = r2.resolve_all()
+                res['xobj_same'] = (dump(mol2) == final_all)
+                res['xobj_k'] = k
             # (4) an arbitrary history on one object, exceptions included
             r, log = fresh()
             hist = []
@@ -329,6 +345,8 @@ class C06(common.Prop):
             return 103
         if impl.get('step_bad'):
             return 106
+        if impl.get('xobj_same') is False:
+            return 107
         return 0
 
     def known_class(self, case, impl, code):
